@@ -9,6 +9,7 @@ S->C : every layout is built with the real prior classes and JointPrior (and Pos
 C->S : generate_initial_guesses calls are recorded (ranks by cost, indices returned) and validated by PriorTrace.tla.
 """
 import json
+import math
 import os
 import numpy as np
 
@@ -43,6 +44,24 @@ class FakeRng:
         self.req.append(("uniform", np.atleast_1d(low).tolist(), np.atleast_1d(high).tolist()))
         f = min(max(self._g(0.75), 0.0), 1.0)
         return np.asarray(low, dtype=float) + (np.asarray(high, dtype=float) - np.asarray(low, dtype=float)) * f
+
+
+class _Offset:
+    """a likelihood plus an additive constant"""
+    def __init__(self, like, off):
+        self.like, self.off = like, off
+
+    def __call__(self, theta):
+        return self.like(theta) + self.off
+
+    def gradient(self, theta):
+        return self.like.gradient(theta)
+
+    def cost(self, theta):
+        return -(self.like(theta) + self.off)
+
+    def cost_gradient(self, theta):
+        return -self.like.gradient(theta)
 
 
 def fr(q):
@@ -270,8 +289,12 @@ def run(tier):
                     return s
                 joint.sample = logged
                 ng, ns = (3, 7) if len(events) % 3 else (4, 4)        # also as many guesses as draws: all of them, still in increasing cost
+                # every other time the log-likelihood carries a large additive constant (an unnormalised likelihood, or many precise data):
+                # exp(log-posterior) would under- or overflow, the ranking by cost is unaffected
+                off = (0.0, -3000.0, 0.0, 2500.0)[len(events) % 4]
+                post_g = post if off == 0.0 else Posterior(likelihood=_Offset(like, off), prior=joint)
                 try:
-                    guesses = post.generate_initial_guesses(n_guesses=ng, prior_samples=ns)
+                    guesses = post_g.generate_initial_guesses(n_guesses=ng, prior_samples=ns)
                 except Exception as ex:
                     ck.violation("generate_initial_guesses raised", {**ident, "n_guesses": ng, "prior_samples": ns, "error": repr(ex)[:200]},
                                  site="Posterior.generate_initial_guesses")
@@ -311,4 +334,27 @@ def run(tier):
         for i in bad[:100]:
             ck.violation("GuessOK: initial guesses are the best of the prior draws, in increasing cost", ev_ident[i],
                          site="Posterior.generate_initial_guesses")
+    support_part(ck)
     return ck.finish()
+
+
+def support_part(ck):
+    """the advertised bounds of a uniform prior are its support: ON a bound the normalised value, one unit in the last place outside it nothing --
+    for bounds that are not binary fractions, far from zero, tiny, negative"""
+    from inference.priors import UniformPrior, JointPrior, GaussianPrior
+    for lo, hi in ((0.1, 0.3), (3.13, 7.69), (1.07, 4.72), (1e6 + 0.1, 1e6 + 0.7), (-0.7, -0.1), (-1e-9, 3e-9), (1.0 / 3.0, 2.0 / 3.0), (2.0, 4.0)):
+        up = UniformPrior(lower=[lo], upper=[hi], variable_indices=[0])
+        jp = JointPrior(components=[UniformPrior(lower=[lo], upper=[hi], variable_indices=[1]), GaussianPrior(mean=[0.0], sigma=[1.0], variable_indices=[0])],
+                        n_variables=2)
+        g0 = float(GaussianPrior(mean=[0.0], sigma=[1.0], variable_indices=[0])(np.array([0.25])))
+        want = -math.log(hi - lo)
+        for t, inside in ((lo, True), (hi, True), (np.nextafter(lo, -np.inf), False), (np.nextafter(hi, np.inf), False), (0.5 * (lo + hi), True),
+                          (np.nextafter(lo, np.inf), True), (np.nextafter(hi, -np.inf), True)):
+            ck.case(("support", lo, hi, float(t)))
+            v = float(up(np.array([t])))
+            vj = float(jp(np.array([0.25, t])))
+            ok = (abs(v - want) <= 1e-12 * max(1.0, abs(want)) and abs(vj - want - g0) <= 1e-12 * max(1.0, abs(want))) if inside else (v < -1e50 and vj < -1e50)
+            if not ok:
+                ck.violation("the advertised bounds are the support of the uniform prior: -log(width) on and between the bounds, no probability one unit in the last place outside",
+                             {"lower": lo, "upper": hi, "theta": float(t), "inside": inside, "value": v, "through_JointPrior": vj, "want_inside": want},
+                             site="UniformPrior.__call__:support")
